@@ -57,7 +57,7 @@ def xFrag (XO : XOracles) : XDecl → PyVal → Bool
       | _ => false)
   | .temporal ty fmt _, v =>
     (match v with
-      | .opaque t => xIsKind ty t && (XO.parse ty fmt (XO.format ty fmt t) == some t)
+      | .opaque t => xIsKind XO ty t && (XO.parse ty fmt (XO.format ty fmt t) == some t)
       | _ => false)
   | .opt x, v => if v.isNone then xNoNone x else xFrag XO x v
   | .seqOf k x, v =>
